@@ -11,7 +11,7 @@ NOTE_T3 = ('T3 (bounded): real functions imported from /repo, independent dense 
 
 P('C01', 'other',
   ['props.shape', 'props.ranks', 'props.erank', 'act_one.copy.tt', 'act_one.copy.scalar', 'act_one.get', 'act_two.add.tt_tt',
-   'act_two.mul.num_tt', 'act_two.mul.tt_num', 'act_two.mul.tt_tt', 'act_two.mul_scalar', 'act_one.norm', 'act_two.sub.tt_tt', 'act_two.outer', 'tensors.const.plain', 'act_one.mean', 'act_one.sum', 'lemmas.spotcheck', 'lemmas.TTAlg'], 60,
+   'act_two.mul.num_tt', 'act_two.mul.tt_num', 'act_two.mul.tt_tt', 'act_two.mul_scalar', 'act_one.norm', 'act_two.accuracy', 'act_two.sub.tt_tt', 'act_two.outer', 'tensors.const.plain', 'act_one.mean', 'act_one.sum', 'lemmas.spotcheck', 'lemmas.TTAlg'], 60,
   ['L-SUMPROD (sum over all multi-indices of a product chain = chain of the mode sums)'],
   'Contract-based: get (loop invariant Q = partial chain => result = val(Y,i)), add tensor+tensor (block-core invariant, '
   'inductive chain lemma => wf, shape, ranks add up, val(result,i) = val(Y1,i)+val(Y2,i) for all d, shapes, ranks), '
@@ -70,7 +70,7 @@ P('C04', 'other',
    'exponent bookkeeping of orthogonalize(use_stab=True)'])
 
 P('C05', 'other',
-  ['cross._func_eval.nocache', 'cross._func_eval.cache', 'utils._info_appr', 'utils._maxvol', 'cross._func.--', 'cross._func.r-', 'cross._func.-c', 'cross._func.rc',
+  ['props.erank', 'cross._func_eval.nocache', 'cross._func_eval.cache', 'utils._info_appr', 'utils._maxvol', 'cross._func.--', 'cross._func.r-', 'cross._func.-c', 'cross._func.rc',
    'cross.cross.nocache.nocb', 'cross.cross.cache.nocb', 'cross.cross.nocache.cb', 'cross.cross.cache.cb',
    'cross._iter.ltr.I', 'cross._iter.ltr.none', 'cross._iter.rtl.I', 'cross._iter.rtl.none', 'cross.cross.shapes'], 30,
   ['L-CROSS (cross interpolation of an exact rank-rho tensor on nonsingular intersections is exact)'],
